@@ -28,6 +28,14 @@ class BisectStub:
         k = len(self.calls)
         lower, upper = torch.as_tensor(lower), torch.as_tensor(upper)
         fl, fu = fn(lower), fn(upper)
+        # bisect is a deterministic function of (fn, target, lower, upper, precision): two calls whose arguments are
+        # the same terms (fn compared through its values at the bracket ends and at a probe point) return the same value
+        probe = fn((lower + upper) / 2)
+        key = tuple(t.id for arr in (lower, upper, target, fl, fu, probe) for t in st.payload(arr).reshape(-1)) + (precision,)
+        for prev in self.calls:
+            if prev.get("key") == key:
+                self.calls.append(dict(prev))
+                return prev["out"]
         shape = tuple(torch.broadcast_shapes(tuple(fl.shape), tuple(target.shape) if isinstance(target, torch.Tensor) else ()))
         pl = np.broadcast_to(st.payload(lower), shape) if shape else st.payload(lower)
         pu = np.broadcast_to(st.payload(upper), shape) if shape else st.payload(upper)
@@ -62,7 +70,7 @@ class BisectStub:
         if self.check_preconditions:
             c.check("%s call %d: target between fn(lower) and fn(upper)" % (self.name, k), tm.and_(*in_all))
         self.calls.append({"lower": lower, "upper": upper, "target": target, "precision": precision, "root": r, "out": u,
-                           "decreasing": decreasing, "inside": api.SymBool(tm.and_(*in_all))})
+                           "decreasing": decreasing, "inside": api.SymBool(tm.and_(*in_all)), "key": key})
         return u
 
 
